@@ -6,7 +6,7 @@
      pyfloat = float(str), sig15 = sigfig.round(.., 15), stored = the document layer for
      numbers (C01), frepr = repr(float).
    Open findings (model faithful to the code, see known_findings.d/C20.json):
-     small-grid-padded, duplicate-header-collapses-columns, tiny-number-crash. *)
+     small-grid-padded, duplicate-header-collapses-columns. *)
 From Coq Require Import ZArith NArith List Bool.
 From NP Require Import Model.PyBase Model.Csv Proofs.CsvReaderP Proofs.CsvP.
 Import ListNotations.
@@ -101,7 +101,7 @@ Print Assumptions roundtrip_grid.
 
 (* main: a missing file, a file the strict reader rejects and every non-empty CSV file end in
    success or in one line on stderr with exit status 1, provided the document layer stores
-   every number (open finding tiny-number-crash is the complement) *)
+   every number (on the pinned tree it did not for 0 < |x| < 1e-307; repaired under C01) *)
 Theorem errors_reported_partial : forall (F : Type) pyfloat sig15 stored (fl : flags) (file : csv_file),
   finite_only fl = true -> (forall f, exists g, stored f = Ok g) ->
   (forall s, file = Text s -> read_excel true s <> Ok []) ->
@@ -109,6 +109,7 @@ Theorem errors_reported_partial : forall (F : Type) pyfloat sig15 stored (fl : f
 Proof. exact errors_reported_lemma. Qed.
 Print Assumptions errors_reported_partial.
 
+(* the hypothesis on the document layer is needed: a number it cannot store leaves main uncaught *)
 Theorem errors_reported_refuted :
   run_main unit w_float_one w_id w_store_fail fl_default (Text [97; 13; 10; 49; 13; 10]%N) = Crashed (OtherCrash 3).
 Proof. exact store_failure_witness. Qed.
